@@ -739,8 +739,9 @@ W('**INPUT** = `check_rc` 1 and `violation_kinds` contains `property` (a concret
 W('**TIE** = `check_rc` 1 but only correspondence / proof / table / harness-exception kinds (`no-failing-input-found`);')
 W('**MISSED** = `check_rc` 0.  The kinds column counts the VIOLATION lines by kind.')
 W('')
-W('| Seed | Prop | Seeded change | Needs to manifest | Result | Kinds |')
-W('|---|---|---|---|---|---|')
+W('| Seed | Prop | Seeded change | Needs to manifest | Result (first run) | Kinds | After strengthening |')
+W('|---|---|---|---|---|---|---|')
+after_count = collections.Counter()
 seed_dirs = sorted(os.listdir(f'{V}/seeded'))
 res_count = collections.Counter()
 weak = []
@@ -780,20 +781,29 @@ for d in seed_dirs:
             warn.append('seed %s: caught flag disagrees with check_rc' % d)
         if res.get('caught_with_input') is not None and bool(res.get('caught_with_input')) != (cls == 'INPUT'):
             warn.append('seed %s: caught_with_input flag disagrees with violation_kinds' % d)
-    W('| %s | %s | %s | %s | **%s** | %s |' % (d, prop, summ.replace('|', '\\|'), needs.replace('|', '\\|'), cls, kinds.replace('|', '\\|')))
+    aft = J(f'{V}/seeded/{d}/result_after.json') if os.path.exists(f'{V}/seeded/{d}/result_after.json') else None
+    if aft is None:
+        acls = '' ; final = cls
+    elif aft.get('error'):
+        acls = 'n/a (seed patch no longer applies after a repair of the same lines)'; final = 'n/a'
+    else:
+        avk = aft.get('violation_kinds') or []
+        acls = 'MISSED' if aft.get('check_rc') == 0 else ('INPUT' if 'property' in avk else 'TIE'); final = acls
+    after_count[final] += 1
+    W('| %s | %s | %s | %s | **%s** | %s | %s |' % (d, prop, summ.replace('|', '\\|'), needs.replace('|', '\\|'), cls, kinds.replace('|', '\\|'), ('**%s**' % acls) if acls else ''))
 W('')
 nseeds = sum(res_count.values())
 W('Totals: %d seeds over %d properties; caught with a concrete failing input %d; caught only as a broken tie %d; missed %d%s.' % (
     nseeds, len(set(re.sub(r'-\d+$', '', d) for d in seed_dirs)), res_count['INPUT'], res_count['TIE'], res_count['MISSED'],
     ('; undetermined %d' % res_count['?']) if res_count['?'] else ''))
+W('After the follow-up strengthening rounds the seeds marked in the last column were re-run (`result_after.json`): final state INPUT %d, TIE %d, MISSED %d, n/a %d.' % (after_count['INPUT'], after_count['TIE'], after_count['MISSED'], after_count['n/a']))
 W('All %d demos behave as described in `result.json` (`demo_pristine_rc` 0, `demo_patched_rc` 1).' % nseeds
   if all((J(f'{V}/seeded/{d}/result.json') or {}).get('demo_pristine_rc') == 0 and (J(f'{V}/seeded/{d}/result.json') or {}).get('demo_patched_rc') == 1
          for d in seed_dirs if os.path.exists(f'{V}/seeded/{d}/result.json'))
   else 'Not every demo has demo_pristine_rc 0 / demo_patched_rc 1 in result.json.')
 W('')
 W('Missed and tie-only seeds, and whether `notes/Cxx.md` records a follow-up strengthening (searched for "follow-up",')
-W('"strengthen", "missed").  The `result.json` files above were not regenerated after these follow-ups, so the table shows the')
-W('first evaluation; the "own mutation" results below are the builders\' reports, not re-verified here.')
+W('"strengthen", "missed").  The first-run column shows the first evaluation; the last column the re-run after the follow-up.')
 W('')
 for d, prop, cls in weak:
     W('* **%s** (%s, %s): %s' % (d, prop, cls, FOLLOW.get(d, 'no entry prepared for this seed; notes not searched - ?')))
